@@ -201,6 +201,17 @@ func TestC28(t *testing.T) {
 	for i := 0; i < 50; i++ {
 		a := c28RandAddr(rng)
 		if got := a.String(); got != c28Encode(a[:]) {
+			// the formatter does not produce the oracle's encoding: if its own text does not
+			// even parse back to the same address, the round-trip clause itself is violated;
+			// only a different but self-consistent encoding makes the oracle inapplicable
+			back, err := codec.StringToAddress(got)
+			if err != nil || back != a {
+				r.Eval()
+				r.Distinct("startup/" + got)
+				r.Violation("C28/roundtrip-mismatch", c28Case{Class: "roundtrip-string", Input: got},
+					"Address %x formats to %q which parses back to %x (err %v)", a[:], got, back[:], err)
+				continue
+			}
 			r.Inconclusive("oracle encoding assumption does not hold: Address.String()=%s, oracle %s", got, c28Encode(a[:]))
 			r.Finish(0)
 			return
